@@ -259,7 +259,7 @@ func (c c03) Run(x *Exec, scn any) {
 			Run: func() { done = true; x.Sim.Advance(time.Duration(s.AdvanceMs) * time.Millisecond) }})
 	}
 	res := x.Sim.Run(nil)
-	if res.Stuck || res.StepCap {
+	if len(x.clientsStuck()) > 0 || res.StepCap {
 		o.violate("blocked", c.ID()+"/log-call-blocked", "synchronous log calls did not finish: %+v", res)
 	}
 	if d := x.Sim.Died(); len(d) > 0 {
